@@ -82,6 +82,11 @@ def handle : List String → String
     match parseInt nb, parseInt fs, parseInt frame, parseInt maxb, parseInt tot, parseInt s with
     | some nb, some fs, some frame, some maxb, some tot, some s => s!"v={msCurrMax nb fs frame maxb tot s}"
     | _, _, _, _, _, _ => "bad-op"
+  | ["mscurr2", nb, fs, frame, vbr, br, out, tot, s] =>
+    match parseInt nb, parseInt fs, parseInt frame, parseInt vbr, parseInt br, parseInt out, parseInt tot, parseInt s with
+    | some nb, some fs, some frame, some vbr, some br, some out, some tot, some s =>
+      s!"v={msCurrMax nb fs frame (msMaxBytes vbr br 0 nb fs frame out) tot s}"
+    | _, _, _, _, _, _, _, _ => "bad-op"
   | _ => "bad-op"
 
 end Driver.SuiteEncSkel
